@@ -178,6 +178,8 @@ class Interp:
         self.layer_base = None
         self.sym = None               # optional sa.symbuf.SymExt: symbolic byte buffers / linear integers
         self.loop_unroll = 1          # while loops: number of iterations executed (1 = one generic iteration)
+        self.maybe_falsy = None       # predicate on opaque values whose truthiness is not known (scenario scalars)
+        self.models = {}              # Obj.id -> model object answering get / set / call / apply for a stand-in object
 
     # ------------------------------------------------------------------ atoms
     def ask(self, atom):
@@ -275,6 +277,9 @@ class Interp:
                 return t
         if k == "c":
             return bool(v[1])
+        if k == "ext" and self.maybe_falsy is not None and self.maybe_falsy(v):
+            # a scenario value standing for any value of its type, 0 / '' / b'' included
+            return self.free("truth(%s)" % v[1])
         if k in ("other", "node", "obj", "cls", "closure", "bound", "ext", "clsmethod"):
             return True
         if k == "list":
@@ -880,6 +885,13 @@ class Interp:
             elif b[0] == "list":
                 if kc is not None and isinstance(kc[1], int) and -len(b[1]) <= kc[1] < len(b[1]):
                     b[1][kc[1]] = v
+                elif isinstance(t.slice, ast.Slice) and t.slice.lower is None and t.slice.upper is None and t.slice.step is None:
+                    # lst[:] = items : the list object keeps its identity and gets the new contents
+                    items = self.iterate(v)
+                    if items is not None:
+                        b[1][:] = list(items)
+                    else:
+                        b[1][:] = [("fn", "star", [v])]
             elif b[0] == "obj":
                 # obj[key] = v  -> __setitem__
                 k2, m = self.repo.find_method(b[1].cls, "__setitem__") if b[1].cls else (None, None)
@@ -888,6 +900,9 @@ class Interp:
 
     def set_attr(self, b, name, v, env, depth, node=None):
         b = self.force(b)
+        if b[0] == "obj" and b[1].id in self.models:
+            self.models[b[1].id].set(self, b, name, v, env, depth)
+            return
         if b[0] == "obj":
             o = b[1]
             owner = env.get("@owner")
@@ -1081,6 +1096,11 @@ class Interp:
                 if r[0] == "class":
                     return ("cls", r[1])
                 if r[0] == "assign":
+                    h = self.hooks.get("resolve")
+                    if h is not None:
+                        hv = h(self, r[1], n, r[2])
+                        if hv is not None:
+                            return hv
                     a = const_alts(Evaluator(self.repo, r[1], None).ev(r[2]))
                     if a is not None and len(a) == 1:
                         return ("c", a[0])
@@ -1442,6 +1462,8 @@ class Interp:
     def get_attr(self, b, name, env, depth, e=None):
         b = self.force(b, deref=True)
         k = b[0]
+        if k == "obj" and b[1].id in self.models:
+            return self.models[b[1].id].get(self, b, name, env, depth)
         if k == "obj":
             o = b[1]
             owner = env.get("@owner")
@@ -1555,6 +1577,11 @@ class Interp:
         if r[0] == "func":
             return ("closure", r[2], {"@module": r[1], "@owner": None}, None, None)
         if r[0] == "assign":
+            h = self.hooks.get("resolve")
+            if h is not None:
+                hv = h(self, r[1], name, r[2])
+                if hv is not None:
+                    return hv
             a = const_alts(Evaluator(self.repo, r[1], None).ev(r[2]))
             if a is not None and len(a) == 1:
                 return ("c", a[0])
@@ -1784,10 +1811,14 @@ class Interp:
                 d.update(a0[1])
             elif a0 is not None:
                 # a closed list of (constant key, value) pairs: an ordinary dict
-                if a0[0] == "list" and not (len(a0) > 2 and a0[2]) and all(p[0] == "list" and len(p[1]) == 2 and p[1][0][0] == "c" and _hashable(p[1][0][1]) for p in a0[1]):
-                    for p in a0[1]:
-                        d[p[1][0][1]] = p[1][1]
-                    return ("dict", d)
+                pairs = self.iterate(a0)
+                if pairs is not None:
+                    # (a pair whose both halves are constants is a constant tuple: the same pair)
+                    pairs = [self.iterate(p) if (p[0] == "list" and not (len(p) > 2 and p[2])) or (p[0] == "c" and isinstance(p[1], (tuple, list))) else None for p in pairs]
+                    if all(p is not None and len(p) == 2 and p[0][0] == "c" and _hashable(p[0][1]) for p in pairs):
+                        for p in pairs:
+                            d[p[0][1]] = p[1]
+                        return ("dict", d)
                 return ("dict", {("dyn", 0): a0}, True)
             return ("dict", d)
         if name == "type" and len(args) == 1:
@@ -1805,6 +1836,9 @@ class Interp:
             if ac[0] == "other":
                 return ("ext", "str", [])      # attribute values of a decoded stanza are strings
             return ("fn", "type", [a0])
+        if name == "setattr" and len(args) == 3 and args[1][0] == "c" and isinstance(args[1][1], str):
+            self.set_attr(a0, args[1][1], args[2], env, depth, e)
+            return C_NONE
         if name in ("hasattr", "getattr") and len(args) >= 2 and args[1][0] == "c":
             if name == "getattr" and a0[0] == "ext" and isinstance(args[1][1], str):
                 return ("bound", a0, args[1][1])      # a method of an opaque object fetched by name: calling it is a method call
@@ -1875,6 +1909,8 @@ class Interp:
             return ("unk", "unbound")
         if k == "cls":
             return self.construct(fv[1], args, kwargs, env, depth, e)
+        if k == "obj" and fv[1].id in self.models:
+            return self.models[fv[1].id].apply(self, fv, args, kwargs, env, depth)
         if k == "fn" and fv[1].startswith(".") and len(fv[2]) == 1 and fv[2][0][0] == "ext" and not fv[2][0][1].startswith("module "):
             # an attribute of an opaque object fetched first and called later (`f = self.manager.decrypt_msg; f(...)`):
             # the same as calling the method
@@ -1922,6 +1958,8 @@ class Interp:
             return ("fn", "to_bytes", [recv] + list(args))
         if k == "node":
             return self.node_method(recv, name, args, kwargs, env, depth, e)
+        if k == "obj" and recv[1].id in self.models:
+            return self.models[recv[1].id].call(self, recv, name, args, kwargs, env, depth)
         if k == "obj":
             o = recv[1]
             h = self.hooks.get("method:" + name)
